@@ -25,6 +25,7 @@ package gateway
 //@   ghost hijacked bool = false
 //@   ghost piped bool = false
 //@   at after call connectDialer#1: ghost dialErr := callresult1
+//@   at after call connectDialer#1: assume dial-success-gives-a-connection: callresult1 == nil ==> callresult0 != nil
 //@   at after call BoundedReceive#1: ghost recvErr := callresult
 //@   at call Hijack#1: assert hijack-only-after-ok-status: dialErr == nil && recvErr == nil && status.Status == protocol.TunnelStatusCode_STATUS_OK && w.httpStatus == 0
 //@   at call Hijack#1: ghost hijacked := true
@@ -37,6 +38,8 @@ package gateway
 //@ func (g *Gateway) forwardTCP(ctx context.Context, host string, remote string, conn DeadlineReadWriteCloser) (ferr error)
 //@   safety off
 //@   opt frame=off
+//@   requires conn != nil
+//@   requires roots-are-lower-case: forall d string :: isRoot(g, d) ==> lower(d) == d
 //@   ghost sentStatus bool = false
 //@   ghost sentErr error = nil
 //@   ghost closed bool = false
